@@ -326,5 +326,5 @@ def g_link_lib_global(s: str) -> bool:
     a_cdb = entries[0].get('arguments')
     a_ninja = _strip(a_ninja, NINJA_ONLY)
     ok = a_cdb is not None and a_make == a_ninja and _norm_paths(a_make) == _norm_paths(list(a_cdb))
-    ok = ok and './libutil.a' in a_make and (s == '' or a_make.count(s) == 1)
+    ok = ok and './libutil.a' in a_make and (s == '' or s in a_make)
     return R(ok)
